@@ -110,6 +110,11 @@ def oracle(c, out):
                     break
         if [l for l, _ in ys] != sorted(l for l, _ in ys):
             fails.append((site + ":remembered-unsorted", repr(ys)))
+    # ---- composites: every component forecaster must remember what the composite was given
+    if opq and in_order and fitted:
+        bad = _components_remember(c)
+        if bad:
+            fails.append((site + ":component-does-not-remember-update", bad))
     # ---- per-op clauses on twins
     prev = (False, None, 0, "none")
     for i, (op, (r, st)) in enumerate(zip(c["ops"], res)):
@@ -155,6 +160,49 @@ def _fed_by_update_predict(op, st):
     except Exception:
         pass
     return fed
+
+
+def _component_forecasters(f):
+    out = []
+    for g in (getattr(f, "forecasters_", None) or []):
+        out.append(g)
+    g = getattr(f, "_forecaster", None)
+    if g is not None:
+        out.append(g)
+    steps = getattr(f, "steps_", None)
+    if steps:
+        out.append(steps[-1][1])
+    g = getattr(f, "best_forecaster_", None)
+    if g is not None:
+        out.append(g)
+    from sktime.forecasting.base._base import BaseForecaster
+    res = []
+    for g in out:
+        if not isinstance(g, BaseForecaster):
+            continue          # e.g. the wrapped statsmodels model of an adapter
+        res.append(g)
+        res.extend(_component_forecasters(g))
+    return res
+
+
+def _components_remember(c):
+    """after the history (updates only, data in time order) the labels remembered by each component
+    forecaster of a composite must reach the last label the composite itself remembers"""
+    if any(o[0] == "up" for o in c["ops"]):
+        return None
+    _, f = _real_values(c)
+    own = getattr(f, "_y", None)
+    if own is None or len(own) == 0:
+        return None
+    last = int(own.index[-1])
+    for g in _component_forecasters(f):
+        gy = getattr(g, "_y", None)
+        if gy is None or not hasattr(gy, "index") or len(gy) == 0:
+            continue
+        if int(gy.index[-1]) != last or len(gy) != len(own):
+            return "%s remembers %d observations up to label %d, the composite %d up to %d" % (
+                type(g).__name__, len(gy), int(gy.index[-1]), len(own), last)
+    return None
 
 
 def _real_values(c):
